@@ -155,6 +155,8 @@ def check(case):
             fetched += 1
             if not observe.same(v, m.vals[i]):
                 raise Violation(f'wrapped-index-value|{tag}', f'{desc}\nW[{i}] == {v!r}, expected {m.vals[i]!r}')
+    if m.iter_taint:
+        return False  # key iteration may be refused as a whole (documented); there is nothing to count
     # (2) wrapped pipeline untouched, nothing shared
     after = snapshot(P)
     if before != after:
